@@ -183,6 +183,62 @@ def job_moments(ctx: Ctx, type_mom, order, dim, npts, ncen, atomgrid=False):
                 ctx.eq(f"row {row} about centre {j} == sum_i w_i f_i basis(r_i - R)", got[k, j], tot, p.pc, replay=R, key=key)
 
 
+def job_history(ctx: Ctx, type_mom, order):
+    """history on one grid object: moments, then the points (and weights) are reassigned through the public setters, then the same moments call again
+    must equal the call on a freshly built grid of the new points; a repeated call without reassignment equals the first; a second centre after a first."""
+    bg, ut = _mods()
+    npproxy.install(bg)
+    npproxy.install(ut)
+    e = ctx.engine
+    ctx.encoded(bg.Grid.moments, type(bg.Grid.points).fset if isinstance(bg.Grid.__dict__.get("points"), property) else bg.Grid.moments)
+    npts, dim = 1, 3
+    P1 = arr([real(f"p{i}_{a}") for i in range(npts) for a in range(dim)], (npts, dim))
+    P2 = arr([real(f"q{i}_{a}") for i in range(npts) for a in range(dim)], (npts, dim))
+    W = arr([real(f"w{i}") for i in range(npts)])
+    W2 = arr([real(f"v{i}") for i in range(npts)])
+    F = arr([real(f"f{i}") for i in range(npts)])
+    C = arr([real(f"c{a}") for a in range(dim)], (1, dim))
+    C2 = arr([real(f"d{a}") for a in range(dim)], (1, dim))
+    key = f"moments:{type_mom}:history"
+
+    def replay(m):
+        with unpatched(bg, ut):
+            rng = np.random.default_rng(11)
+            p1, p2, w, f_, c = rng.normal(size=(5, 3)), rng.normal(size=(5, 3)), rng.uniform(0.1, 1, 5), rng.normal(size=5), rng.normal(size=(1, 3))
+            g = bg.Grid(p1.copy(), w.copy())
+            g.moments(order, c, f_, type_mom)
+            g.points = p2.copy()
+            second = g.moments(order, c, f_, type_mom)
+            fresh = bg.Grid(p2.copy(), w.copy()).moments(order, c, f_, type_mom)
+            return (not np.allclose(second, fresh, rtol=1e-10, atol=1e-12)), dict(type=type_mom, after_reassignment=np.asarray(second).ravel()[:6].tolist(), fresh_grid=np.asarray(fresh).ravel()[:6].tolist())
+
+    def body():
+        g = bg.Grid(P1.copy(), W.copy())
+        first = g.moments(order, C, F, type_mom)
+        again = g.moments(order, C, F, type_mom)
+        other_centre = g.moments(order, C2, F, type_mom)
+        g.points = P2.copy()
+        second = g.moments(order, C, F, type_mom)
+        g.weights = W2.copy()
+        third = g.moments(order, C, F, type_mom)
+        fresh1 = bg.Grid(P1.copy(), W.copy())
+        fresh2 = bg.Grid(P2.copy(), W.copy())
+        fresh3 = bg.Grid(P2.copy(), W2.copy())
+        return first, again, other_centre, second, third, fresh1.moments(order, C2, F, type_mom), fresh2.moments(order, C, F, type_mom), fresh3.moments(order, C, F, type_mom)
+    for p in e.run(body):
+        ctx.paths += 1
+        if p.exc is not None:
+            ctx.fail(f"history of moments({type_mom}) calls returns", f"{type(p.exc).__name__}: {str(p.exc)[:160]}", key=key, replay=replay, model=ctx.model_for(p.pc) or {})
+            continue
+        first, again, other, second, third, f_other, f_second, f_third = [np.asarray(v, dtype=object).ravel() for v in p.result]
+        for k in range(len(first)):
+            ctx.eq(f"row {k}: repeated call == first call", again[k], first[k], p.pc, key=key, replay=replay)
+            ctx.eq(f"row {k}: second centre after a first == fresh grid about that centre", other[k], f_other[k], p.pc, key=key, replay=replay)
+            ctx.eq(f"row {k}: after `grid.points = new` == fresh grid on the new points", second[k], f_second[k], p.pc, key=key, replay=replay)
+            ctx.eq(f"row {k}: after `grid.weights = new` == fresh grid with the new weights", third[k], f_third[k], p.pc, key=key, replay=replay)
+    ctx.twin(())
+
+
 def job_dipole(ctx: Ctx):
     bg, ut = _mods()
     npproxy.install(bg)
@@ -239,6 +295,8 @@ def jobs(tier):
     js.append(Job("cartesian/atomgrid", job_moments, "cartesian", 1, 3, 2, 2, True))
     js.append(Job("pure-radial/atomgrid", job_moments, "pure-radial", 1, 3, 1, 1, True))
     js.append(Job("dipole", job_dipole))
+    for t in ("cartesian", "radial", "pure", "pure-radial"):
+        js.append(Job(f"history/{t}", job_history, t, 1 if tier == "quick" else 2))
     only = os.environ.get("SYMGRID_ONLY")
     return [j for j in js if not only or only in j.name]
 
